@@ -6,7 +6,8 @@
 //!
 //! The runner level can also be set by builder calls: `HX_BUILDER` holds
 //! `;`-separated calls (`sample_count=3`, `sample_size=2`, `threads=1,2`,
-//! `skip_exact=PATH`, `skip_regex=PAT`, `run_ignored`, `run_only_ignored`,
+//! `skip_exact=PATH`, `skip_regex=PAT`, `skip_regex_i|m|s|U=PAT` (pre-built
+//! Regex with a RegexBuilder flag), `run_ignored`, `run_only_ignored`,
 //! `items_count=N`, `bytes_count=N`, `skip_ext_time=true|false`,
 //! `bytes_format=binary|decimal`) applied before (`pre:` prefix) or after
 //! (`post:` prefix, the default) `config_with_args`.
@@ -434,6 +435,33 @@ mod tim {
     }
 }
 
+// Floor and ceiling made visible by coarse timing (sleeps only when
+// HX_SLEEP_MS is set): `floor` asks for one sample of a 5 ms call, so it is
+// called again only if a time floor is in force (50 ms floor: about 10 calls);
+// `ceil` asks for 40 samples of a 2 ms call (80 ms), so it records fewer than
+// 40 only if a ceiling below that is in force.
+mod lim {
+    use super::ran;
+
+    fn nap(ms: u64) {
+        if std::env::var("HX_SLEEP_MS").map(|s| s != "0").unwrap_or(false) {
+            std::thread::sleep(std::time::Duration::from_millis(ms));
+        }
+    }
+
+    #[divan::bench(sample_count = 1, sample_size = 1)]
+    fn floor() {
+        ran("hx_select_e2e::lim::floor");
+        nap(5)
+    }
+
+    #[divan::bench(sample_count = 40, sample_size = 1)]
+    fn ceil() {
+        ran("hx_select_e2e::lim::ceil");
+        nap(2)
+    }
+}
+
 fn apply(mut d: Divan, call: &str) -> Divan {
     let (name, val) = call.split_once('=').unwrap_or((call, ""));
     match name {
@@ -442,6 +470,11 @@ fn apply(mut d: Divan, call: &str) -> Divan {
         "threads" => d.threads(val.split(',').filter(|s| !s.is_empty()).map(|s| s.parse::<usize>().unwrap())),
         "skip_exact" => d.skip_exact(val),
         "skip_regex" => d.skip_regex(val),
+        // pre-built `Regex` values with `RegexBuilder` flags (not part of the pattern text)
+        "skip_regex_i" => d.skip_regex(regex_lite::RegexBuilder::new(val).case_insensitive(true).build().unwrap()),
+        "skip_regex_m" => d.skip_regex(regex_lite::RegexBuilder::new(val).multi_line(true).build().unwrap()),
+        "skip_regex_s" => d.skip_regex(regex_lite::RegexBuilder::new(val).dot_matches_new_line(true).build().unwrap()),
+        "skip_regex_U" => d.skip_regex(regex_lite::RegexBuilder::new(val).swap_greed(true).build().unwrap()),
         "run_ignored" => d.run_ignored(),
         "run_only_ignored" => d.run_only_ignored(),
         "items_count" => d.items_count(val.parse::<u64>().unwrap()),
